@@ -182,6 +182,11 @@ fn print(t: &T, tight: bool, o: &mut String) {
                 }
                 print(a, tight, o);
             }
+            // a one-element tuple is written with its trailing comma (`(e,)`; `(e)` is a parenthesised expression);
+            // longer tuples may carry one (here: in the spaced print when the first item is a number)
+            if xs.len() == 1 || (!tight && matches!(xs.first(), Some(T::Int(_)))) {
+                o.push(',');
+            }
             o.push(')');
         }
     }
@@ -376,7 +381,7 @@ fn random_tree(rng: &mut Rng, budget: &mut i32) -> T {
         15 | 16 => T::Field(Box::new(random_tree(rng, budget)), rng.pick(&["fld", "x", "len"]).to_string()),
         17 | 18 => T::Proj(Box::new(random_tree(rng, budget)), rng.below(3) as usize),
         _ => {
-            let n = 2 + rng.below(2);
+            let n = 1 + rng.below(3);
             T::Tuple((0..n).map(|_| random_tree(rng, budget)).collect())
         }
     }
